@@ -8,6 +8,7 @@ from ..ref_ws import SFrame, TEXT
 KEYS = [bytes(16), b'\xff' * 16, bytes(range(16)), bytes.fromhex('5c1f0b8e99a04d7e2b6f30c4d8e1a2b3'),
         bytes.fromhex('00ff00ff00ff00ff00ff00ff00ff00ff'), bytes.fromhex('deadbeefcafebabe0123456789abcdef')]
 LEAK = SFrame(TEXT, b'leak').encode()
+BIG = SFrame(2, bytes(20000)).encode()
 URLS = [
     ('ws://example.com', 'example.com', 80, '/'),
     ('ws://example.com/', 'example.com', 80, '/'),
@@ -82,7 +83,7 @@ def spec_families():
     fam['status'] = [{'status': s} for s in (b'HTTP/1.1 101 Switching Protocols', b'HTTP/1.1 101', b'HTTP/1.1 101 OK', b'HTTP/1.0 101 Switching',
                                              b'HTTP/1.1 100 Continue', b'HTTP/1.1 200 OK', b'HTTP/1.1 204 No Content', b'HTTP/1.1 301 Moved',
                                              b'HTTP/1.1 400 Bad Request', b'HTTP/1.1 404 Not Found', b'HTTP/1.1 426 Upgrade Required',
-                                             b'HTTP/1.1 500 Oops', b'HTTP/1.1 1010 x', b'HTTP/1.1 10 x', b'HTTP/1.1 abc Nope', b'HTTP/1.1', b'',
+                                             b'HTTP/1.1 500 Oops', b'HTTP/1.1 1010 x', b'HTTP/1.1 101abc x', b'HTTP/1.1 1015 x', b'HTTP/1.1 101.5 x', b'HTTP/1.1 10 x', b'HTTP/1.1 abc Nope', b'HTTP/1.1', b'',
                                              b'HTTP/1.1 -101 neg', b'HTTP/1.1 101.0 float')]
     fam['upgrade'] = [{'upgrade': u} for u in (None, b'h2c', b'websocketx', b'web socket', b'', b'websocket ')]
     fam['size'] = [{'size': 16383}, {'size': 16384}, {'size': 16385}, {'size': 16386}, {'size': 20000}, {'size': 40000},
@@ -101,6 +102,9 @@ def deliveries(block, rest, fam):
     """How the reply (+ trailing frame) is cut into reads."""
     yield 'one', [block + rest]
     yield 'reply-then-frame', [block, rest]
+    if fam in ('fold', 'negotiated', 'accept', 'status'):
+        # the read that completes the reply also carries a lot of frame data (the 16 KiB limit applies to the header block only)
+        yield 'one+big', [block[:-2], block[-2:] + BIG + rest]
     if fam in ('perm', 'fold', 'accept', 'negotiated') and len(block) < 600:
         yield 'bytes', [bytes([b]) for b in block + rest]
     if fam == 'size':
@@ -177,6 +181,8 @@ class C10(F.Check):
             out.append(('socket-open', 'socket not closed after %r' % names))
         body = names[2:-1]
         if verdict[0] == 'ready':
+            if body == ['ready', 'binary', 'text']:
+                body = ['ready', 'text']       # delivery with the extra binary frame
             if body != ['ready', 'text']:
                 out.append(('ready-expected' if 'ready' not in body else 'after-ready', 'correct reply but events %r' % names))
             else:
